@@ -237,8 +237,8 @@ def _kwoargs_start(start, _kwoargs, func, *args, **kwargs):
         # already converted by a modifier this one is stacked with
         found = start in getattr(func, 'kwoarg_names', ())
     if not found:
-        raise ValueError('{0!r} not found in {1.__name__}{2}'.format(
-            start, func, sig))
+        raise ValueError('{0!r} not found in {1}{2}'.format(
+            start, getattr(func, '__name__', repr(func)), sig))
     if not kwoarg_names:
         return func # nothing left to convert
     return _PokTranslator(
@@ -302,8 +302,8 @@ def _posoargs_end(end, _posoargs, func, *args, **kwargs):
             # already converted by a modifier this one is stacked with
             found = True
     if not found:
-        raise ValueError('{0!r} not found in {1.__name__}{2}'.format(
-            end, func, sig))
+        raise ValueError('{0!r} not found in {1}{2}'.format(
+            end, getattr(func, '__name__', repr(func)), sig))
     if not posoarg_names:
         return func # nothing left to convert
     return _PokTranslator(
